@@ -24,6 +24,8 @@ var families = map[string]famDef{
 	"cursor":    {"C10", famCursor, exactRunner},
 	"reads":     {"C16", famReads, exactRunner},
 	"difflinks": {"C07", famDiffLinks, exactRunner},
+	"format":    {"C14", famFormat, Runner{}},
+	"badroots":  {"C19", famBadRoots, Runner{}},
 	"diffcost":  {"C15", famDiffCost, exactRunner},
 }
 
@@ -35,7 +37,12 @@ func main() {
 	corpus := flag.String("corpus", "", "directory of corpus cases (*.json) replayed first")
 	replay := flag.String("replay", "", "replay one case file and print the outcome")
 	list := flag.Bool("list", false, "list families")
+	genvec := flag.String("genvectors", "", "write frozen format vectors to this file (run against the pinned release)")
 	flag.Parse()
+	if *genvec != "" {
+		writeVectors(*genvec, 20260929)
+		return
+	}
 	if *list {
 		var names []string
 		for k := range families {
